@@ -109,7 +109,7 @@ def run(tier, seed):
                     'presence': {repr(k): sorted(v) for k, v in M.pres.items()}})
     rep.assumptions = ['PYTHONHASHSEED=0', 'deterministic library (no clocks/IO in the graph classes)',
                        'state key = structural walk of G.__dict__ + model; equal keys => equal futures']
-    return rep.finish(known, 'BFS over add_* call histories (U1 one pair deep, U2 all pairs/bulk helpers shallow, TWO two '
+    return rep.finish(known, base.UNIVERSE_NOTE[4:] + ' || ' + 'BFS over add_* call histories (U1 one pair deep, U2 all pairs/bulk helpers shallow, TWO two '
                              'pairs sharing instants, U3 seeded prefixes); a state is distinct by structural key; '
                              'non-trivial = at least two calls and some interaction present; every state probed with '
                              'has_interaction on all ordered node pairs (incl. an unknown node) x all probe instants')
